@@ -194,6 +194,31 @@ func c04Resend(c *Check, P string, r *GCRoles) {
 			}
 		}
 		c.Report(ok, P+".O2", "RESEND-UNLESS-CLOSED", D, sw.si.Sel.Pos(), k, "from the Nack case every path to the function's exit passes the send again or the subscription-closed check", wit...)
+		// … and only then: no other case of the wait (a timer, a default) leads back to the send
+		rs := ReachAfter(sw.si.Sel, NewCut().AddEdges(*sw.nacked))
+		again := false
+		for _, s2 := range sendIns {
+			if rs[s2] {
+				again = true
+			}
+		}
+		c.Report(!again, P+".O2", "RESEND-ONLY-AFTER-NACK", D, sw.si.Sel.Pos(), k, "the message is sent again only through the Nack case of the wait (any other way back to the send delivers an unsettled message twice)")
+		// the wait is entered only after the copy was really handed over
+		for _, s2 := range r.Sends {
+			if s2.Sel == nil {
+				continue
+			}
+			var sentEdge *Edge
+			for _, cs := range s2.Sel.Cases {
+				if cs.Send && cs.Edge != nil {
+					sentEdge = cs.Edge
+				}
+			}
+			if sentEdge != nil {
+				rw := ReachAfter(s2.Sel.Sel, NewCut().AddEdges(*sentEdge))
+				c.Report(!rw[sw.si.Sel], P+".O2", "WAIT-ONLY-AFTER-SENT", D, s2.Ins.Pos(), k, "the wait for the settlement is reached only through the case in which the copy was sent (waiting for the ack of a copy nobody received holds the subscription's mutex forever)")
+			}
+		}
 	}
 	c05DeliverUntilSettled(c, P+".O2", r)
 }
@@ -257,6 +282,25 @@ func c04Fanout(c *Check, P string, r *GCRoles) {
 			}
 			if inc != nil && inc.Parent() == goSite.Parent() {
 				c.Report(!ReachWithout(inc, inc, goSite), P+".O3", "FANOUT-NO-SKIP", goSite.Parent(), goSite.Pos(), k, "every iteration of the subscriber loop starts the deliver goroutine")
+			}
+		}
+	}
+	// the loop that starts the deliver goroutines does not block: one subscriber cannot hold up the delivery to the others
+	for _, f := range WithStarted(F) {
+		for i, op := range BlockingOps(f) {
+			if InLoop(op.Ins) && op.Kind != "lock" {
+				isFan := false
+				for _, dc := range dcalls {
+					if g, ok := OnlySite(dc.Parent()).(*ssa.Go); ok && g.Parent() == f {
+						isFan = true
+					}
+					if ms := ClosureSites(dc.Parent()); len(ms) == 1 && ms[0].Parent() == f {
+						isFan = true
+					}
+				}
+				if isFan {
+					c.Report(false, P+".O3", "FANOUT-NEVER-WAITS", f, op.Ins.Pos(), fmt.Sprintf("op#%d (%s) in the subscriber loop", i, op.Kind), "the loop that starts one deliver goroutine per subscriber contains no channel operation or wait (a slow subscriber must not delay or starve the others)")
+				}
 			}
 		}
 	}
